@@ -933,3 +933,18 @@ prop(dict(
     assumptions=COMMON_ASSUME + ["N and the reserved aggregation-header bits are not judged (the statement does not mention them)",
                                  "the deprecated path uses a fresh AV1Packet per RTP payload (AV1Packet caches its parsed elements)"],
 ))
+
+
+# ---------------------------------------------------------------- growth (not listed properties; not in MANIFEST)
+prop(dict(
+    id="G01", fam="G01",
+    mc=[("RtpHeaderExtMC.tla", "RtpHeaderExtMC.cfg", {})],
+    gen=[("ViewGen.tla", "ViewGen.cfg", {"thorough": {"Depth": "3"}})],
+    trace=("ViewTrace.tla", "ViewTrace.cfg"),
+    shards={"quick": 2, "thorough": 12},
+    nontrivial=lambda c: len(c["ops"]) > 0,
+    class_of=lambda c: c["class"],
+    rule="GROWTH: Set/Del/Get/GetIDs histories (depth <= 2, thorough 3) on OneByteHeaderExtension / TwoByteHeaderExtension / RawExtension started from well-formed blocks; "
+         "judged against the ordered-map machine of RtpHeaderExt plus re-serialisation (Marshal must be a well-formed block whose reference walk returns the map)",
+    assumptions=COMMON_ASSUME + ["not one of the listed properties: findings are reported in DESIGN.md 9.7, never as a listed property's violation"],
+))
